@@ -1,9 +1,13 @@
 import Pw.C01.Driver
+import Pw.C05.Driver
+import Pw.C04.Driver
 open Proto
 
 /-- all request handlers; each property contributes `CNN.handlers` -/
 def handlers : List (String × Handler) :=
   C01.handlers
+  ++ C05.handlers
+  ++ C04.handlers
 
 def dispatch (line : String) : String :=
   let (fn, args) := parseLine line
